@@ -58,7 +58,7 @@ use std::time::Duration;
 pub static INFO: PropInfo = PropInfo {
     id: "C11",
     level: "exploration",
-    rule: "one evaluation = one simulated star session: one server, 2-8 initial clients with independent fault profiles per client and direction, clients joining (fresh id) and leaving (remove_connection / disconnect / client-side disconnect) at random ticks, unicast both ways, broadcast_message and broadcast_message_except on all channel kinds, 0-2 hostile clients whose ids receive random, mutated, forged and replayed foreign datagrams, one client with one ordered server->client message dropped forever (head-of-line stall); then the links heal and a deadline computed from the undisturbed clients only is awaited. Oracle: obtained only if addressed / at most once / only under the sender's id (unconditional), exactly-once delivery of every unicast and broadcast to every undisturbed client that stayed connected, no foreign-cause disconnect of an undisturbed client, C01/C02 oracles per undisturbed connection. Non-trivial = at least one broadcast and one broadcast_except were judged for delivery, at least one disturbance (hostile datagram accepted, leave, or stall) happened and link faults occurred; distinct = distinct event-log fingerprints.",
+    rule: "one evaluation = one simulated star session: one server, 2-8 initial clients with independent fault profiles per client and direction, clients joining (fresh id) and leaving (remove_connection / disconnect / client-side disconnect) at random ticks, unicast both ways, broadcast_message and broadcast_message_except on all channel kinds, 0-2 hostile clients whose ids receive random, mutated, forged and replayed foreign datagrams, one client with one ordered server->client message dropped forever (head-of-line stall); then the links heal and a deadline computed from the undisturbed clients only is awaited. Oracle: obtained only if addressed / at most once / only under the sender's id (unconditional), exactly-once delivery of every unicast and broadcast to every undisturbed client that stayed connected, no foreign-cause disconnect of an undisturbed client, C01/C02 oracles per undisturbed connection. Non-trivial = at least one broadcast and one broadcast_except were judged for delivery, at least one disturbance (hostile datagram accepted, leave, or stall) happened and link faults occurred; distinct = distinct event-log fingerprints. One run in 10 is a HOST-PLAYER run instead (c11_host.rs): one remote and one LOCAL client (new_local_client / process_local_client / disconnect_local_client), channel lists that differ between the directions in 3 of 4 runs (disjoint ids, same ids with rotated kinds, fewer channels upstream), lossless exchange, unicasts, broadcasts and upstream messages of 24..5000 bytes; in 2 of 3 runs the local client disconnects itself, is closed with disconnect_local_client and opened again under the same id; every obtained message must have been addressed to that client on that channel (once on reliable channels, in order on ordered ones), nobody may end up disconnected, the closed local session must be gone, and after 30 quiet ticks every reliable message must have been obtained.",
     assumptions: &[
         "every message is >= 24 bytes so that it carries its address (connection / 0xFF for broadcast + flags, direction, channel, index) in its header",
         "sessions use fresh client ids (re-use of an id is C10/C12 matter)",
@@ -81,6 +81,9 @@ pub static INFO: PropInfo = PropInfo {
         ("stalled_client_other_channels_checked", 50),
         ("stalled_stream_blocked_messages", 50),
         ("hostile_datagrams", 1000),
+        ("host.runs", 20),
+        ("host.runs_asymmetric_channel_lists", 10),
+        ("host.local_client_reopened_same_id", 10),
         ("hostile_foreign_replayed", 100),
         ("hostile_disconnected_by_garbage", 20),
         ("joined", 50),
@@ -932,6 +935,9 @@ fn enc(p: &Packet) -> Vec<u8> {
 
 pub fn one_run(ctx: &Ctx, out: &mut Outcome, run_seed: u64) {
     let mut r = Rng::new(run_seed);
+    if ctx.replay_mode.as_deref() == Some("host-player") || (ctx.replay_mode.is_none() && r.below(10) == 0) {
+        return super::c11_host::host_run(ctx, out, run_seed, &mut r);
+    }
     let gen = CfgGen {
         max_clients: 8,
         small_budgets: false,
